@@ -8,9 +8,17 @@ import (
 
 // Scan breaks a string into a sequence of Tokens.
 func Scan(data string, loc SourceLoc, delims []string) (tokens []Token) {
-	// Apply defaults
+	// Apply defaults; an empty delimiter stands for the corresponding default
+	defaults := []string{"{{", "}}", "{%", "%}"}
 	if len(delims) != 4 {
-		delims = []string{"{{", "}}", "{%", "%}"}
+		delims = defaults
+	} else {
+		for i, d := range delims {
+			if d != "" {
+				defaults[i] = d
+			}
+		}
+		delims = defaults
 	}
 	tokenMatcher := formTokenMatcher(delims)
 
